@@ -78,6 +78,10 @@ func (s *Set) Add(a rune) {
 
 // AddRange adds to a set.
 func (s *Set) AddRange(begin, end rune) {
+	if begin > end {
+		/* an inverted range holds nothing */
+		return
+	}
 	beginNode := &s.Head
 	for beginNode.Forward != nil && begin > beginNode.Forward.End {
 		beginNode = beginNode.Forward
@@ -175,17 +179,9 @@ func (s *Set) Complement(endSymbol rune) *Set {
 		set.Tail.Backward = &node
 		return set
 	}
-	if s.Head.Forward.Begin == 0 && s.Head.Forward.End == endSymbol {
-		return set
-	}
-	a, b := &s.Head, &set.Head
+	a, b := s.Head.Forward, &set.Head
 	pre, tail := rune(0), true
-	if pre == a.Forward.Begin {
-		a = a.Forward
-		pre = a.End + 1
-	}
-	a = a.Forward
-	for a.Forward != nil {
+	for a.Forward != nil && tail && a.Begin <= endSymbol {
 		/* intervals that touch leave no gap between them */
 		if pre < a.Begin {
 			node := Node{
@@ -196,8 +192,8 @@ func (s *Set) Complement(endSymbol rune) *Set {
 			b.Forward = &node
 			b = b.Forward
 		}
-		if a.End == endSymbol {
-			/* nothing is left above the last interval (and End + 1 may overflow) */
+		if a.End >= endSymbol {
+			/* nothing is left above this interval (and End + 1 may overflow) */
 			tail = false
 		} else {
 			pre = a.End + 1
